@@ -149,29 +149,58 @@ SUBCLASS_OF = {"bool": {"int"}, "datetime": {"date"}, "datetime.datetime": {"dat
                "EmptyValueAtLine": {"str"}, "frozenset": set(), "PVLGroup": {"abc.Mapping"}}
 
 
-def isinstance_chain(fn, var):
-    """Top-level if/elif chain of *fn* on isinstance(var, T) / `var is None`: list of (type names, branch body)."""
-    chain = []
-    node = None
-    for s in fn.body:
-        if isinstance(s, ast.If):
-            node = s
-            break
-    while node is not None:
-        t = node.test
-        names = None
+def isinstance_chain(fn, var, repo=None, module="encoder"):
+    """The dispatch of *fn* on the type of *var*, in test order: list of (type names, branch body, node).  Reads an
+    if/elif chain and equally a run of guard statements (`if isinstance(v, T): return ...` one after the other); a
+    type tuple given by a module-level constant is looked up."""
+    def type_names(t):
         if isinstance(t, ast.Call) and isinstance(t.func, ast.Name) and t.func.id == "isinstance" and len(t.args) == 2 \
                 and isinstance(t.args[0], ast.Name) and t.args[0].id == var:
             ty = t.args[1]
-            names = [norm(x) for x in (ty.elts if isinstance(ty, ast.Tuple) else [ty])]
-        elif isinstance(t, ast.Compare) and isinstance(t.ops[0], ast.Is) and norm(t.left) == var and norm(t.comparators[0]) == "None":
-            names = ["None"]
-        chain.append((names, node.body, node))
-        if len(node.orelse) == 1 and isinstance(node.orelse[0], ast.If):
-            node = node.orelse[0]
-        else:
-            chain.append((["<else>"], node.orelse, node))
-            node = None
+            if isinstance(ty, ast.Name) and repo is not None:
+                mc = repo.module_constant(module, ty.id)
+                if isinstance(mc, ast.Tuple):
+                    ty = mc
+            return [norm(x) for x in (ty.elts if isinstance(ty, ast.Tuple) else [ty])]
+        if isinstance(t, ast.Compare) and isinstance(t.ops[0], ast.Is) and norm(t.left) == var and norm(t.comparators[0]) == "None":
+            return ["None"]
+        return None
+    from .flow import _terminates
+    chain = []
+    body = [s_ for s_ in fn.body if not (isinstance(s_, ast.Expr) and isinstance(s_.value, ast.Constant))]
+    i = 0
+    while i < len(body):
+        s_ = body[i]
+        if not isinstance(s_, ast.If):
+            i += 1
+            if chain:
+                break
+            continue
+        node = s_
+        closed = False
+        while node is not None:
+            chain.append((type_names(node.test), node.body, node))
+            if len(node.orelse) == 1 and isinstance(node.orelse[0], ast.If):
+                node = node.orelse[0]
+            else:
+                if node.orelse:
+                    chain.append((["<else>"], node.orelse, node))
+                    closed = True
+                last = node
+                node = None
+        i += 1
+        if closed:
+            break
+        # a guard (every arm leaves): the next statement continues the dispatch
+        arms_leave = all(_terminates(b_) for (_n, b_, nd) in chain if nd is s_ or True) if chain else False
+        if not _terminates(s_.body):
+            break
+    else:
+        pass
+    if chain and chain[-1][0] != ["<else>"] and i <= len(body):
+        rest = body[i:] if i < len(body) else []
+        if rest:
+            chain.append((["<else>"], rest, rest[0]))
     return chain
 
 
@@ -198,7 +227,7 @@ def rule_d1(repo, res):
         if fn is None:
             raise AnalysisError(f"anchor vanished: {enc}.encode_simple_value")
         var = fn.args.args[1].arg
-        chain = isinstance_chain(fn, var)
+        chain = isinstance_chain(fn, var, repo)
         nt = numeric_types(repo, enc) or []
         pos = {}
         for i, (names, body, node) in enumerate(chain):
@@ -239,7 +268,7 @@ def rule_d1(repo, res):
         if fn2 is None:
             raise AnalysisError(f"anchor vanished: {enc}.encode_datetype")
         var2 = fn2.args.args[1].arg
-        ch2 = isinstance_chain(fn2, var2)
+        ch2 = isinstance_chain(fn2, var2, repo)
         order = []
         targets = {}
         for names, body, node in ch2:
@@ -617,7 +646,8 @@ def rule_c12_structure(repo, res):
         it = norm(lp.iter)
         swept = it[len("enumerate("):-1] if it.startswith("enumerate(") else it
         defs = [n for n in fe.body if isinstance(n, ast.Assign) and norm(n.targets[0]) == swept]
-        ok = ok and bool(defs) and norm(defs[0].value) == norm(fe.body[-1].value)
+        # the text returned is the text swept: the same variable, or the same defining expression again
+        ok = ok and bool(defs) and len(defs) == 1 and norm(fe.body[-1].value) in (swept, norm(defs[0].value))
     res.oblige("SWEEP", "PVLEncoder.encode: every character of the returned text passes grammar.char_allowed or ValueError is raised", ok=ok)
     if not ok:
         res.add(Finding("SWEEP", "PVLEncoder.encode", "character sweep",
@@ -651,23 +681,31 @@ def rule_c12_structure(repo, res):
                         "characters on its return path: PDS3 labels may not contain tabs", where=f"pvl/encoder.py:{fp.lineno}"))
     # ODL: units only after numbers; key upper-cased; guards dominate emission
     fv = repo.method("ODLEncoder", "encode_value")
-    ok = False
-    for n in ast.walk(fv):
-        if isinstance(n, ast.If) and "isinstance(value, quant.cls)" in norm(n.test):
-            inner = [x for x in n.body if isinstance(x, ast.If)]
-            if inner and "self.numeric_types" in norm(inner[0].test) and any(isinstance(b, ast.Return) for b in inner[0].body) and \
-                    inner[0].orelse and any(isinstance(b, ast.Raise) for b in inner[0].orelse):
-                ok = True
+    # path conditions: some raise is reached exactly under `not isinstance(getattr(value, <quantity>.value_prop), self.numeric_types)`
+    def numeric_test(pol):
+        return lambda t, p: isinstance(t, ast.Call) and norm(t.func) == "isinstance" and len(t.args) == 2 \
+            and "value_prop" in norm(t.args[0]) and norm(t.args[1]) == "self.numeric_types" and p == pol
+    sc_ = flow.stmts_with_conds(fv.body)
+    ok = any(isinstance(st, ast.Raise) and flow.holds(c, numeric_test(False)) for st, c in sc_) and \
+        not any(isinstance(st, ast.Raise) and flow.holds(c, numeric_test(True)) for st, c in sc_)
     res.oblige("UNITS", "ODLEncoder.encode_value: a quantity is written only when its value is numeric, else ValueError", ok=ok)
     if not ok:
         res.add(Finding("UNITS", "ODLEncoder.encode_value", "numeric test", "ODLEncoder.encode_value no longer restricts units "
                         "expressions to numeric values", where=f"pvl/encoder.py:{fv.lineno}"))
     fa = repo.method("ODLEncoder", "encode_assignment")
-    up = [n for n in ast.walk(fa) if isinstance(n, ast.Assign) and norm(n.value) == "key.upper()"]
-    used = bool(up) and any(isinstance(n, ast.Call) and isinstance(n.func, ast.Attribute) and n.func.attr == "format" and
-                            any(norm(up[0].targets[0]) in norm(a) for a in n.args) for n in ast.walk(fa))
-    raw = any(isinstance(n, ast.Call) and isinstance(n.func, ast.Attribute) and n.func.attr == "format" and
-              any(norm(a).startswith("key") for a in n.args) for n in ast.walk(fa))
+    # taint: the text handed to self.format() derives from <key>.upper() and never from the key as given
+    from . import flow
+    kparam = fa.args.args[1].arg
+    is_fmt = lambda c: norm(c.func) == "self.format"
+    is_upper = lambda e: isinstance(e, ast.Call) and isinstance(e.func, ast.Attribute) and e.func.attr == "upper" and not e.args \
+        and norm(e.func.value) == kparam
+    def is_raw(e):
+        if not (isinstance(e, ast.Name) and e.id == kparam and isinstance(e.ctx, ast.Load)):
+            return False
+        p = getattr(e, "_parent", None)
+        return not (isinstance(p, ast.Attribute) and p.attr == "upper")
+    used = bool(flow.sinks(fa, is_upper, is_fmt))
+    raw = bool(flow.sinks(fa, is_raw, is_fmt))
     ok = used and not raw
     res.oblige("UPPER", "ODLEncoder.encode_assignment writes key.upper(), never the key as given", ok=ok)
     if not ok:
@@ -725,11 +763,20 @@ def rule_align(repo, res):
             continue
         params = [a.arg for a in fn.args.args]
         ok_param = "key_len" in params
+        from .inline import inlined
+        fn = inlined(repo, cls, fn, module="encoder")           # a thin helper that builds the start of the line is read in place
         lj = [n for n in ast.walk(fn) if isinstance(n, ast.Call) and isinstance(n.func, ast.Attribute) and n.func.attr == "ljust"]
         ok = ok_param and bool(lj) and all(len(n.args) == 1 and norm(n.args[0]) == "key_len" for n in lj)
         # the separator
         seps = [c.value for n in ast.walk(fn) for c in ast.walk(n) if isinstance(c, ast.Constant) and isinstance(c.value, str) and "=" in c.value]
         ok_sep = any(x in ("{} = ", " = ") for x in seps)
+        # in an f-string the separator is the constant part that follows the padded key
+        for js in [n for n in ast.walk(fn) if isinstance(n, ast.JoinedStr)]:
+            vals = js.values
+            for i, v in enumerate(vals[:-1]):
+                if isinstance(v, ast.FormattedValue) and any(x in lj for x in ast.walk(v.value)) \
+                        and isinstance(vals[i + 1], ast.Constant) and str(vals[i + 1].value).startswith(" = "):
+                    ok_sep = True
         # default: when no width is given the key's own length
         dflt = any(isinstance(n, ast.If) and norm(n.test) == "key_len is None" and any(norm(b) == "key_len = len(key)" for b in n.body)
                    for n in ast.walk(fn))
